@@ -478,7 +478,8 @@ pub fn run<G: Glue>(
             Step::SetData { data } => resp = resp.set_data(data.clone()),
             Step::Attr { k, v } => resp = resp.add_attribute(k, v),
             Step::Event { ty, k, v } => {
-                resp = resp.add_event(sylvia::cw_std::Event::new(ty).add_attribute(k, v))
+                // (an empty key stands for an event without any attribute)
+                resp = resp.add_event(if k.is_empty() { sylvia::cw_std::Event::new(ty) } else { sylvia::cw_std::Event::new(ty).add_attribute(k, v) })
             }
             Step::Send(s) => {
                 let sm = build_send::<G>(deps.storage, s)?;
